@@ -499,11 +499,17 @@ pub fn check(cfg: CheckCfg) -> i32 {
 
 /// Determinism self-test: each seed is run in two different worker processes; hashes must agree.
 pub fn determinism(prop: &str, n: u64) -> i32 {
+    determinism_from(prop, n, 0)
+}
+
+/// `from`: first run index compared (properties whose index space is shared by several scenarios, e.g. C14:
+/// `determinism C14 600 40000` compares the first 600 runs of the second scenario)
+pub fn determinism_from(prop: &str, n: u64, from: u64) -> i32 {
     let seed = env_seed();
     let mut maps: Vec<BTreeMap<u64, (u64, u64)>> = Vec::new();
     for nw in [16u64, 5u64] {
         let (tx, rx) = mpsc::channel();
-        let mut procs: Vec<WorkerProc> = (0..nw).map(|w| spawn_worker(prop, Tier::Quick, seed, w, nw, n, 0, tx.clone())).collect();
+        let mut procs: Vec<WorkerProc> = (0..nw).map(|w| spawn_worker(prop, Tier::Quick, seed, w, nw, from + n, from, tx.clone())).collect();
         drop(tx);
         let mut m = BTreeMap::new();
         let mut eofs = 0;
